@@ -50,6 +50,7 @@ let () =
     | "drain" -> M_drain.run_line
     | "bcast" -> M_bcast.run_line
     | "hand" -> M_hand.run_line
+    | "full" -> M_full.run_line
     | "e2e" -> (fun _ -> print_string "-\n")   (* oracle-only stream: see DESIGN.md, mode e2e *)
     | _ -> failwith ("unknown mode " ^ mode) in
   iter_lines stdin (fun line -> if line <> "" then f line)
